@@ -24,8 +24,8 @@ class FullCheck(BaseCheck):
   FOCUS = ()
   QUICK_CASES = 1280
   THOROUGH_CASES = 40000
-  QUICK_WALL = 50
-  THOROUGH_WALL = 480
+  QUICK_WALL = 180
+  THOROUGH_WALL = 1800
   MIN_DISTINCT = 10
   ANCHORS = ('scales.sink:ClientTimeoutSink._TimeoutHelper',
              'scales.sink:ClientTimeoutSink.AsyncProcessResponse',
